@@ -1,5 +1,6 @@
 //! pcv_schema: worker for the postcard-schema / postcard-dyn properties (C14-C19).
 mod c14;
+mod conform;
 mod conv;
 mod corpus;
 mod dynm;
